@@ -266,10 +266,11 @@ func (c *cors) handle(node types.Node, wh http.Header, r *http.Request) {
 
 	if preflight {
 		// Access-Control-Allow-Methods
-		if slices.Index(node.Methods(), reqMethod) < 0 {
+		methods := node.Methods() // 只读取一次，保证判断与输出的是同一时刻的内容。
+		if slices.Index(methods, reqMethod) < 0 {
 			return
 		}
-		wh.Set(header.AccessControlAllowMethods, node.AllowHeader())
+		wh.Set(header.AccessControlAllowMethods, strings.Join(methods, ", "))
 		wh.Add(header.Vary, header.AccessControlRequestMethod)
 
 		// Access-Control-Allow-Headers
